@@ -68,7 +68,16 @@ func runC06(c *vlib.Check) {
 		"operation code 0 is not an enumeration value and is left out"}
 	// ---------- (A) operations
 	codes := []uint32{}
-	for i := uint32(1); i <= 65535; i++ {
+	maxCode := uint32(65535)
+	if c.Thorough() {
+		maxCode = 1<<20 - 1
+		for _, hi := range []uint32{0x80000000, 0xFFFF0000, 0x00FF0000, 0x7F000000} { // high-half codes colliding with registered low parts
+			for lo := uint32(0); lo <= 0x2F; lo++ {
+				codes = append(codes, hi|lo)
+			}
+		}
+	}
+	for i := uint32(1); i <= maxCode; i++ {
 		codes = append(codes, i)
 	}
 	codes = append(codes, 1<<31-1, 1<<31, 1<<32-1)
@@ -184,8 +193,17 @@ func runC06(c *vlib.Check) {
 		objGo[o.ObjectType()] = reflect.TypeOf(o)
 	}
 	ots := []uint32{}
-	for i := uint32(0); i <= 255; i++ {
+	maxOT := uint32(255)
+	if c.Thorough() {
+		maxOT = 4095
+	}
+	for i := uint32(0); i <= maxOT; i++ {
 		ots = append(ots, i)
+	}
+	for _, hi := range []uint32{0x100, 0x10000, 0x80000000, 0xFFFFFF00} { // object types colliding with registered ones in the low byte
+		for lo := uint32(0); lo <= 9; lo++ {
+			ots = append(ots, hi|lo)
+		}
 	}
 	ots = append(ots, 1<<32-1)
 	type carrier struct {
